@@ -402,6 +402,14 @@ func (fi *FuncInfo) exportFacts(ret *ssa.Return, skip int) map[string]Fact {
 			}
 			return nil
 		})
+		// a load of parameter-rooted memory in a later critical section of the
+		// callee is kept, with a version that can never equal a caller version
+		nt = nt.Subst(func(t *Term) *Term {
+			if t.K == KLoad && t.V != "" && !strings.HasPrefix(t.V, "@") && rootIsParam(t.A[0]) {
+				return &Term{K: KLoad, A: t.A, V: "@" + FuncName(fi.Fn) + ":" + t.V, Typ: t.Typ, Val: t.Val}
+			}
+			return nil
+		})
 		if !exportable(nt) {
 			continue
 		}
@@ -420,7 +428,7 @@ func exportable(t *Term) bool {
 		case KCall, KPhi, KAlloc, KRange, KOpaque, KMake, KFree, KClos:
 			ok = false
 		case KLoad:
-			if s.V != "" {
+			if s.V != "" && !strings.HasPrefix(s.V, "@") {
 				ok = false
 			}
 		case KPure:
@@ -528,6 +536,11 @@ func (fi *FuncInfo) instantiate(sf Fact, call *ssa.Call) *Fact {
 			}
 			return fi.extractTerm(call, i)
 		case KLoad:
+			if strings.HasPrefix(t.V, "@") {
+				// read inside the callee's own critical section: keep the marker
+				addr := t.A[0].Subst(sub)
+				return &Term{K: KLoad, A: []*Term{addr}, V: t.V, Typ: t.Typ, Val: t.Val}
+			}
 			// entry-version load in the callee: version at the call site
 			addr := t.A[0].Subst(sub)
 			cls, ok := fi.classOfAddrTerm(addr)
@@ -597,3 +610,19 @@ func NotTerm(t *Term) *Term { return &Term{K: KUn, S: "!", A: []*Term{t}} }
 
 // RetSummaryOf returns the return summary of a repository function.
 func (p *Program) RetSummaryOf(fn *ssa.Function) *RetSummary { return p.retSummary(fn, 0) }
+
+func rootIsParam(addr *Term) bool {
+	for addr != nil {
+		switch addr.K {
+		case KParam:
+			return true
+		case KFA, KIA:
+			addr = addr.A[0]
+		case KLoad:
+			addr = addr.A[0]
+		default:
+			return false
+		}
+	}
+	return false
+}
